@@ -70,6 +70,9 @@ KeepStatic(h) == Len(h) >= 3 /\ h[2].step.op = "load" /\ h[3].step.op = "enhance
                  /\ h[Len(h)].step.op = "notify"
 (* the cache is converted to a 'static one somewhere in a history that also notifies something *)
 KeepEnh(h) == CountOp(h, "enhance") = 1 /\ CountOp(h, "notify") >= 1 /\ h[2].step.op = "load"
+(* loads first, a batch of two entries somewhere, a pass at the end *)
+KeepBatch2(h) == h[2].step.op = "load" /\ h[Len(h)].step.op = "hot_reload" /\ CountOp(h, "edit") >= 1
+                 /\ \E i \in 3..Len(h) : h[i].step.op = "notify" /\ Cardinality(h[i].step.batch) = 2
 (* some asset was actually reloaded *)
 KeepReloaded(h) == \E i \in 2..Len(h) : \E e \in h[i].snap : e.rid > 0
 
